@@ -24,6 +24,38 @@ let unesc t =
 let bytes_of s = Stdlib.List.init (Stdlib.String.length s) (fun i -> n_of_int (Stdlib.Char.code s.[i])) @ [N0]
 let string_of_bytes l = Stdlib.String.concat "" (Stdlib.List.map (fun b -> Stdlib.String.make 1 (Stdlib.Char.chr (int_of_n b land 255))) l)
 
+(* A set argument that the LIST parser reads as a negative or huge number (strtoul: "-3" is 2^64-3, truncated to
+   the bit index 2^32-3): BSet is a bit mask, so such a set would need gigabytes.  The model is not run on it
+   (UNMODELLED 9); same rule as gen/calc_gen.py absurd_set_token. *)
+let absurd_set_token cif_list t =
+  let n = Stdlib.String.length t in
+  let has c = Stdlib.String.contains t c in
+  if has ':' || has '=' then false else begin
+    let u = if n > 0 && (t.[0] = '~' || t.[0] = 'x' || t.[0] = '^') then Stdlib.String.sub t 1 (n - 1) else t in
+    let m = Stdlib.String.length u in
+    let lower = Stdlib.String.lowercase_ascii u in
+    if u = "all" || u = "root" then false
+    else if m >= 2 && Stdlib.String.sub lower 0 2 = "0x" && not cif_list then false
+    else if not (Stdlib.String.contains u '-') && not cif_list then false
+    else begin
+      let isd c = c >= '0' && c <= '9' in
+      let isx c = isd c || (c >= 'a' && c <= 'f') || (c >= 'A' && c <= 'F') in
+      let bad = ref false in
+      let run = ref 0 in
+      for i = 0 to m - 1 do
+        if isd u.[i] then (incr run; if !run >= 7 then bad := true) else run := 0;
+        if u.[i] = '-' && i + 1 < m && isd u.[i + 1] && (i = 0 || not (isd u.[i - 1])) then bad := true;
+        if u.[i] = '0' && i + 1 < m && (u.[i + 1] = 'x' || u.[i + 1] = 'X') then begin
+          let k = ref 0 in
+          let j = ref (i + 2) in
+          while !j < m && isx u.[!j] do incr k; incr j done;
+          if !k >= 6 then bad := true
+        end
+      done;
+      !bad
+    end
+  end
+
 let cur : dump option ref = ref None
 let limit = Some (z_of_int 200000)
 
@@ -49,6 +81,12 @@ let () =
             let ls = (match Stdlib.List.rev ls with "" :: r -> Stdlib.List.rev r | _ -> ls) in
             Stdlib.List.map raw_bytes ls in
         let args = Stdlib.List.map (fun t -> bytes_of (unesc t)) toks in
+        let plain = Stdlib.List.map unesc toks in
+        let cif_list = Stdlib.List.mem "list" plain in
+        let stdin_toks = match stdin_text with
+          | None -> []
+          | Some t -> Stdlib.List.filter (fun x -> x <> "") (Stdlib.String.split_on_char ' ' (Stdlib.String.map (fun c -> if c = '\n' then ' ' else c) t)) in
+        if Stdlib.List.exists (absurd_set_token cif_list) (plain @ stdin_toks) then print_endline "UNMODELLED 9" else
         (match !cur with
          | None -> print_endline "NODUMP"
          | Some d ->
